@@ -1,4 +1,4 @@
 #!/bin/bash
 # selftest/all_seeds.sh : applies every seeded change on a scratch copy and runs the check of its property; prints one line per seed
 cd /verif
-for d in seeded/*/; do n=$(basename $d); P=${n%-*}; out=$(SEED_LINES=1 selftest/seed_eval.sh $P $d --notests 2>&1); v=$(echo "$out" | grep -c "^VIOLATION"); rc=$(echo "$out" | grep "check exit" | tail -1); d1=$(echo "$out" | grep "demo on changed" ); echo "$n | $d1 | violations>=$v | $rc"; done
+for d in seeded/*/; do n=$(basename $d); P=${n%-*}; out=$(SEED_LINES=12 selftest/seed_eval.sh $P $d --notests 2>&1); v=$(echo "$out" | grep -c "^VIOLATION"); rc=$(echo "$out" | grep "check exit" | tail -1); d1=$(echo "$out" | grep "demo on changed" ); echo "$n | $d1 | violations>=$v | $rc"; done
